@@ -37,6 +37,9 @@ pub enum Source {
 
 #[derive(Clone, Debug, PartialEq, Eq, Serialize, Deserialize)]
 pub enum SerKind {
+    /// a simulated length-prefixed format: the announced lengths of sequences and structs must
+    /// match what is then written (JSON ignores them)
+    LenChecked,
     ToString,
     ToVec,
     /// `max_chunk`: the writer accepts at most this many bytes per call (short writes);
@@ -51,6 +54,9 @@ pub enum KeyRepr {
     Transient,
     Owned,
     Bytes,
+    /// the key arrives as an integer (formats with packed / indexed field names); `off` is added
+    /// to the field's index (num_cols 0, num_rows 1, data 2, anything else 3)
+    Index { off: u8 },
 }
 
 #[derive(Clone, Copy, Debug, PartialEq, Eq, Serialize, Deserialize)]
@@ -65,7 +71,17 @@ pub enum DeKind {
     FromSlice,
     FromReader { max_chunk: usize, eintr_every: usize, fault: Option<(ReadFault, usize)> },
     FromValue,
-    SimMap { keys: Vec<KeyRepr>, error_at: Option<usize> },
+    SimMap {
+        keys: Vec<KeyRepr>,
+        error_at: Option<usize>,
+        /// lying size hints: 0 none, 1 the data sequence claims usize::MAX elements, 2 it claims
+        /// 2^40, 3 the map itself claims usize::MAX entries
+        #[serde(default)]
+        hint: u8,
+    },
+    /// a simulated positional, not self-describing format: the field values in the order the
+    /// serialiser wrote them, delivered through `visit_seq`; `human` is what `is_human_readable()` says
+    Positional { human: bool },
 }
 
 /// A dimension value a damaged document may state.
@@ -362,6 +378,10 @@ impl<'de> Deserializer<'de> for KeyDe<'de> {
                 let tmp = self.key.as_bytes().to_vec();
                 v.visit_bytes(&tmp)
             }
+            KeyRepr::Index { off } => {
+                let idx = FIELDS.iter().position(|f| *f == self.key).unwrap_or(3) as u64;
+                v.visit_u64(idx + off as u64)
+            }
         }
     }
     serde::forward_to_deserialize_any! {
@@ -376,7 +396,78 @@ struct SimMap<'de> {
     pos: usize,
     error_at: Option<usize>,
     delivered: usize,
+    hint: u8,
     pub error_fired: &'de std::cell::Cell<bool>,
+}
+
+/// A value whose sequences may lie about their length (`SeqAccess::size_hint`).
+struct HintedValue {
+    v: Value,
+    seq_hint: Option<usize>,
+}
+
+struct HintedSeq {
+    it: std::vec::IntoIter<Value>,
+    hint: Option<usize>,
+}
+
+impl<'de> serde::de::SeqAccess<'de> for HintedSeq {
+    type Error = serde_json::Error;
+    fn next_element_seed<S: DeserializeSeed<'de>>(&mut self, seed: S) -> Result<Option<S::Value>, Self::Error> {
+        match self.it.next() {
+            Some(v) => seed.deserialize(v).map(Some),
+            None => Ok(None),
+        }
+    }
+    fn size_hint(&self) -> Option<usize> {
+        self.hint
+    }
+}
+
+impl<'de> Deserializer<'de> for HintedValue {
+    type Error = serde_json::Error;
+    fn deserialize_any<V: Visitor<'de>>(self, vis: V) -> Result<V::Value, Self::Error> {
+        match (self.v, self.seq_hint) {
+            (Value::Array(a), Some(h)) => vis.visit_seq(HintedSeq { it: a.into_iter(), hint: Some(h) }),
+            (other, _) => other.deserialize_any(vis),
+        }
+    }
+    serde::forward_to_deserialize_any! {
+        bool i8 i16 i32 i64 i128 u8 u16 u32 u64 u128 f32 f64 char str string bytes byte_buf option unit
+        unit_struct newtype_struct seq tuple tuple_struct map struct enum identifier ignored_any
+    }
+}
+
+/// The positional deserialiser: only the struct / tuple / seq entry points work.
+struct SimSeqDe {
+    vals: Vec<Value>,
+    human: bool,
+}
+
+impl<'de> Deserializer<'de> for SimSeqDe {
+    type Error = serde_json::Error;
+    fn deserialize_any<V: Visitor<'de>>(self, _vis: V) -> Result<V::Value, Self::Error> {
+        Err(serde_json::Error::custom("positional format: not self-describing"))
+    }
+    fn deserialize_struct<V: Visitor<'de>>(self, _name: &'static str, _fields: &'static [&'static str], vis: V) -> Result<V::Value, Self::Error> {
+        let n = self.vals.len();
+        vis.visit_seq(HintedSeq { it: self.vals.into_iter(), hint: Some(n) })
+    }
+    fn deserialize_tuple<V: Visitor<'de>>(self, _len: usize, vis: V) -> Result<V::Value, Self::Error> {
+        let n = self.vals.len();
+        vis.visit_seq(HintedSeq { it: self.vals.into_iter(), hint: Some(n) })
+    }
+    fn deserialize_seq<V: Visitor<'de>>(self, vis: V) -> Result<V::Value, Self::Error> {
+        let n = self.vals.len();
+        vis.visit_seq(HintedSeq { it: self.vals.into_iter(), hint: Some(n) })
+    }
+    fn is_human_readable(&self) -> bool {
+        self.human
+    }
+    serde::forward_to_deserialize_any! {
+        bool i8 i16 i32 i64 i128 u8 u16 u32 u64 u128 f32 f64 char str string bytes byte_buf option unit
+        unit_struct newtype_struct tuple_struct map enum identifier ignored_any
+    }
 }
 
 impl<'de> MapAccess<'de> for SimMap<'de> {
@@ -401,7 +492,14 @@ impl<'de> MapAccess<'de> for SimMap<'de> {
         self.delivered += 1;
         let v = self.events[self.pos].val.value();
         self.pos += 1;
-        seed.deserialize(v)
+        match self.hint {
+            1 => seed.deserialize(HintedValue { v, seq_hint: Some(usize::MAX) }),
+            2 => seed.deserialize(HintedValue { v, seq_hint: Some(1 << 40) }),
+            _ => seed.deserialize(v),
+        }
+    }
+    fn size_hint(&self) -> Option<usize> {
+        if self.hint == 3 { Some(usize::MAX) } else { None }
     }
 }
 
@@ -417,6 +515,122 @@ impl<'de> Deserializer<'de> for SimDe<'de> {
     serde::forward_to_deserialize_any! {
         bool i8 i16 i32 i64 i128 u8 u16 u32 u64 u128 f32 f64 char str string bytes byte_buf option unit
         unit_struct newtype_struct seq tuple tuple_struct map struct enum identifier ignored_any
+    }
+}
+
+
+// ---------------------------------------------------------------------------------------------
+// a simulated length-prefixed serialiser: builds a value tree like serde_json's, but remembers
+// when the announced length of a sequence or struct differs from what was written
+
+struct LenSer<'a> {
+    bad: &'a std::cell::RefCell<Option<String>>,
+}
+
+struct LenSeq<'a> {
+    bad: &'a std::cell::RefCell<Option<String>>,
+    announced: Option<usize>,
+    items: Vec<Value>,
+}
+
+struct LenStruct<'a> {
+    bad: &'a std::cell::RefCell<Option<String>>,
+    announced: usize,
+    fields: serde_json::Map<String, Value>,
+    order: Vec<String>,
+}
+
+fn unsupported<T>(what: &str) -> Result<T, serde_json::Error> {
+    Err(serde::ser::Error::custom(format!("length-prefixed simulator: {} not supported", what)))
+}
+
+impl<'a> serde::Serializer for LenSer<'a> {
+    type Ok = Value;
+    type Error = serde_json::Error;
+    type SerializeSeq = LenSeq<'a>;
+    type SerializeTuple = serde::ser::Impossible<Value, serde_json::Error>;
+    type SerializeTupleStruct = serde::ser::Impossible<Value, serde_json::Error>;
+    type SerializeTupleVariant = serde::ser::Impossible<Value, serde_json::Error>;
+    type SerializeMap = serde::ser::Impossible<Value, serde_json::Error>;
+    type SerializeStruct = LenStruct<'a>;
+    type SerializeStructVariant = serde::ser::Impossible<Value, serde_json::Error>;
+    fn serialize_bool(self, v: bool) -> Result<Value, Self::Error> { Ok(Value::Bool(v)) }
+    fn serialize_i8(self, v: i8) -> Result<Value, Self::Error> { Ok(Value::from(v)) }
+    fn serialize_i16(self, v: i16) -> Result<Value, Self::Error> { Ok(Value::from(v)) }
+    fn serialize_i32(self, v: i32) -> Result<Value, Self::Error> { Ok(Value::from(v)) }
+    fn serialize_i64(self, v: i64) -> Result<Value, Self::Error> { Ok(Value::from(v)) }
+    fn serialize_u8(self, v: u8) -> Result<Value, Self::Error> { Ok(Value::from(v)) }
+    fn serialize_u16(self, v: u16) -> Result<Value, Self::Error> { Ok(Value::from(v)) }
+    fn serialize_u32(self, v: u32) -> Result<Value, Self::Error> { Ok(Value::from(v)) }
+    fn serialize_u64(self, v: u64) -> Result<Value, Self::Error> { Ok(Value::from(v)) }
+    fn serialize_f32(self, v: f32) -> Result<Value, Self::Error> { Ok(Value::from(v as f64)) }
+    fn serialize_f64(self, v: f64) -> Result<Value, Self::Error> { Ok(Value::from(v)) }
+    fn serialize_char(self, v: char) -> Result<Value, Self::Error> { Ok(Value::from(v.to_string())) }
+    fn serialize_str(self, v: &str) -> Result<Value, Self::Error> { Ok(Value::from(v)) }
+    fn serialize_bytes(self, _v: &[u8]) -> Result<Value, Self::Error> { unsupported("bytes") }
+    fn serialize_none(self) -> Result<Value, Self::Error> { Ok(Value::Null) }
+    fn serialize_some<T: ?Sized + Serialize>(self, v: &T) -> Result<Value, Self::Error> { v.serialize(self) }
+    fn serialize_unit(self) -> Result<Value, Self::Error> { Ok(Value::Null) }
+    fn serialize_unit_struct(self, _n: &'static str) -> Result<Value, Self::Error> { Ok(Value::Null) }
+    fn serialize_unit_variant(self, _n: &'static str, _i: u32, v: &'static str) -> Result<Value, Self::Error> { Ok(Value::from(v)) }
+    fn serialize_newtype_struct<T: ?Sized + Serialize>(self, _n: &'static str, v: &T) -> Result<Value, Self::Error> { v.serialize(self) }
+    fn serialize_newtype_variant<T: ?Sized + Serialize>(self, _n: &'static str, _i: u32, _v: &'static str, _x: &T) -> Result<Value, Self::Error> { unsupported("enum variants") }
+    fn serialize_seq(self, len: Option<usize>) -> Result<LenSeq<'a>, Self::Error> {
+        Ok(LenSeq { bad: self.bad, announced: len, items: Vec::new() })
+    }
+    fn serialize_tuple(self, _len: usize) -> Result<Self::SerializeTuple, Self::Error> { unsupported("tuples") }
+    fn serialize_tuple_struct(self, _n: &'static str, _len: usize) -> Result<Self::SerializeTupleStruct, Self::Error> { unsupported("tuple structs") }
+    fn serialize_tuple_variant(self, _n: &'static str, _i: u32, _v: &'static str, _len: usize) -> Result<Self::SerializeTupleVariant, Self::Error> { unsupported("tuple variants") }
+    fn serialize_map(self, _len: Option<usize>) -> Result<Self::SerializeMap, Self::Error> { unsupported("maps") }
+    fn serialize_struct(self, _n: &'static str, len: usize) -> Result<LenStruct<'a>, Self::Error> {
+        Ok(LenStruct { bad: self.bad, announced: len, fields: serde_json::Map::new(), order: Vec::new() })
+    }
+    fn serialize_struct_variant(self, _n: &'static str, _i: u32, _v: &'static str, _len: usize) -> Result<Self::SerializeStructVariant, Self::Error> { unsupported("struct variants") }
+    fn is_human_readable(&self) -> bool { false }
+}
+
+impl<'a> serde::ser::SerializeSeq for LenSeq<'a> {
+    type Ok = Value;
+    type Error = serde_json::Error;
+    fn serialize_element<T: ?Sized + Serialize>(&mut self, v: &T) -> Result<(), Self::Error> {
+        let x = v.serialize(LenSer { bad: self.bad })?;
+        self.items.push(x);
+        Ok(())
+    }
+    fn end(self) -> Result<Value, Self::Error> {
+        match self.announced {
+            Some(n) if n != self.items.len() => {
+                let mut b = self.bad.borrow_mut();
+                if b.is_none() {
+                    *b = Some(format!("a sequence announced {} elements but {} were written", n, self.items.len()));
+                }
+            }
+            _ => {}
+        }
+        Ok(Value::Array(self.items))
+    }
+}
+
+impl<'a> serde::ser::SerializeStruct for LenStruct<'a> {
+    type Ok = Value;
+    type Error = serde_json::Error;
+    fn serialize_field<T: ?Sized + Serialize>(&mut self, key: &'static str, v: &T) -> Result<(), Self::Error> {
+        let x = v.serialize(LenSer { bad: self.bad })?;
+        self.fields.insert(key.to_string(), x);
+        self.order.push(key.to_string());
+        Ok(())
+    }
+    fn end(self) -> Result<Value, Self::Error> {
+        if self.announced != self.order.len() {
+            let mut b = self.bad.borrow_mut();
+            if b.is_none() {
+                *b = Some(format!("a struct announced {} fields but {} were written", self.announced, self.order.len()));
+            }
+        }
+        // the emission order is kept in a side field so that positional deliveries can use it
+        let mut m = self.fields;
+        m.insert("\u{0}order".to_string(), Value::Array(self.order.into_iter().map(Value::from).collect()));
+        Ok(Value::Object(m))
     }
 }
 
@@ -490,6 +704,26 @@ enum Wire {
 fn serialise<S: Serialize>(x: &S, ser: &SerKind, stats: &mut SStats) -> Result<Option<Wire>, SViol> {
     let v = |detail: String| SViol { kind: "serialize".into(), detail, op: format!("{:?}", ser) };
     match ser {
+        SerKind::LenChecked => {
+            let bad = std::cell::RefCell::new(None);
+            let r = guard(|| x.serialize(LenSer { bad: &bad }));
+            stats.tf("length_prefixed_serialiser");
+            match r {
+                Err(p) => Err(v(format!("serialising into a length-prefixed format panicked: {}", p))),
+                Ok(Err(e)) => Err(v(format!("serialising into a length-prefixed format failed: {}", e))),
+                Ok(Ok(mut tree)) => {
+                    // An announced length that contradicts what is written would corrupt a
+                    // length-prefixed format, but C18 speaks about the four serde_json transports,
+                    // which ignore it: counted for the evidence, not reported.
+                    if bad.borrow().is_some() {
+                        stats.tf("announced_length_mismatch_seen");
+                    }
+                    // drop the bookkeeping of nested structs, keep the top-level order
+                    strip_order(&mut tree, true);
+                    Ok(Some(Wire::Tree(tree)))
+                }
+            }
+        }
         SerKind::ToString => match guard(|| serde_json::to_string(x)) {
             Err(p) => Err(v(format!("to_string panicked: {}", p))),
             Ok(Err(e)) => Err(v(format!("to_string failed: {}", e))),
@@ -527,6 +761,40 @@ fn serialise<S: Serialize>(x: &S, ser: &SerKind, stats: &mut SStats) -> Result<O
                 }
             }
         }
+    }
+}
+
+/// Remove the "\0order" bookkeeping entries (except at the top level when `keep_top`).
+fn strip_order(v: &mut Value, keep_top: bool) {
+    match v {
+        Value::Object(m) => {
+            if !keep_top {
+                m.remove("\u{0}order");
+            }
+            for (_, x) in m.iter_mut() {
+                strip_order(x, false);
+            }
+        }
+        Value::Array(a) => a.iter_mut().for_each(|x| strip_order(x, false)),
+        _ => {}
+    }
+}
+
+/// The order in which the three fields were written: from the length-prefixed serialiser's
+/// bookkeeping, or from the text.
+fn emission_order(wire: &Wire) -> Vec<String> {
+    match wire {
+        Wire::Tree(Value::Object(m)) => match m.get("\u{0}order") {
+            Some(Value::Array(a)) => a.iter().filter_map(|x| x.as_str().map(|s| s.to_string())).collect(),
+            _ => m.keys().cloned().collect(),
+        },
+        Wire::Text(b) => {
+            let t = String::from_utf8_lossy(b);
+            let mut pos: Vec<(usize, String)> = FIELDS.iter().filter_map(|f| t.find(&format!("\"{}\":", f)).map(|p| (p, f.to_string()))).collect();
+            pos.sort();
+            pos.into_iter().map(|(_, f)| f).collect()
+        }
+        _ => Vec::new(),
     }
 }
 
@@ -571,7 +839,7 @@ fn deliver_text<T: CellTy>(bytes: &[u8], de: &DeKind, stats: &mut SStats) -> (De
             Ok(v) => guard(|| serde_json::from_value::<TooDee<T>>(v).map_err(|e| e.to_string())),
             Err(e) => Ok(Err(format!("not JSON: {}", e))),
         },
-        DeKind::SimMap { .. } => unreachable!("SimMap is delivered from events"),
+        DeKind::SimMap { .. } | DeKind::Positional { .. } => unreachable!("delivered from events"),
     };
     let d = match r {
         Err(p) => Delivered::Panic(p),
@@ -581,11 +849,11 @@ fn deliver_text<T: CellTy>(bytes: &[u8], de: &DeKind, stats: &mut SStats) -> (De
     (d, info)
 }
 
-fn deliver_events<T: CellTy>(events: &[Event], keys: &[KeyRepr], error_at: Option<usize>, stats: &mut SStats) -> (Delivered<T>, DeliveryInfo) {
+fn deliver_events<T: CellTy>(events: &[Event], keys: &[KeyRepr], error_at: Option<usize>, hint: u8, stats: &mut SStats) -> (Delivered<T>, DeliveryInfo) {
     let fired = std::cell::Cell::new(false);
     let keys_v: Vec<KeyRepr> = if keys.is_empty() { vec![KeyRepr::Borrowed] } else { keys.to_vec() };
     let r = guard(|| {
-        let map = SimMap { events, keys: &keys_v, pos: 0, error_at, delivered: 0, error_fired: &fired };
+        let map = SimMap { events, keys: &keys_v, pos: 0, error_at, delivered: 0, hint, error_fired: &fired };
         TooDee::<T>::deserialize(SimDe { map }).map_err(|e| e.to_string())
     });
     for k in &keys_v {
@@ -594,7 +862,11 @@ fn deliver_events<T: CellTy>(events: &[Event], keys: &[KeyRepr], error_at: Optio
             KeyRepr::Transient => "key_transient",
             KeyRepr::Owned => "key_owned",
             KeyRepr::Bytes => "key_bytes",
+            KeyRepr::Index { .. } => "key_integer",
         });
+    }
+    if hint != 0 {
+        stats.tf("lying_size_hint");
     }
     if fired.get() {
         stats.tf("event_error");
@@ -899,6 +1171,14 @@ fn finish_delivery<T: CellTy>(t: &SerdeTrace, prop: &str, wire: Wire, expected: 
     *stats.pairs.entry(format!("{}->{}", ser_name(&t.ser), de_name(&t.de))).or_insert(0) += 1;
     let what = format!("{}->{}", ser_name(&t.ser), de_name(&t.de));
     let v = |kind: &str, detail: String| SViol { kind: kind.into(), detail, op: what.clone() };
+    let order = emission_order(&wire);
+    let wire = match wire {
+        Wire::Tree(mut tv) => {
+            strip_order(&mut tv, false);
+            Wire::Tree(tv)
+        }
+        w => w,
+    };
     let tree: Value = match &wire {
         Wire::Tree(v) => v.clone(),
         Wire::Text(b) => match serde_json::from_slice(b) {
@@ -913,8 +1193,35 @@ fn finish_delivery<T: CellTy>(t: &SerdeTrace, prop: &str, wire: Wire, expected: 
     let damaged = !t.muts.is_empty() || !t.byte_muts.is_empty();
     if prop == "C18" || !damaged {
         // ---- round trip (benign or hard transport faults only)
+        if let DeKind::Positional { human } = &t.de {
+            // positional delivery in the order the serialiser wrote the fields: the result must
+            // be an error or exactly the original array
+            let vals: Vec<Value> = order.iter().filter_map(|k| events.iter().find(|e| &e.key == k).map(|e| e.val.value())).collect();
+            if vals.len() != 3 || matches!(t.ser, SerKind::ToValue) {
+                // the order in which the fields were written is not known (a value tree sorts its keys)
+                stats.skipped += 1;
+                return Ok(false);
+            }
+            let human = *human;
+            stats.tf("positional_delivery");
+            let r = guard(|| TooDee::<T>::deserialize(SimSeqDe { vals, human }).map_err(|e| e.to_string()));
+            return match r {
+                Err(p) => Err(v("panic", format!("positional deserialisation panicked: {}", p))),
+                Ok(Err(_)) => {
+                    stats.oc("positional_rejected");
+                    Ok(true)
+                }
+                Ok(Ok(a)) => {
+                    if a.size() != expected.size() || a.data() != expected.data() {
+                        return Err(v("round_trip", format!("a positional round trip (fields in the order they were written: {:?}) changed the array: size {:?} -> {:?}", order, expected.size(), a.size())));
+                    }
+                    stats.oc("positional_round_trip_equal");
+                    Ok(true)
+                }
+            };
+        }
         let (d, info): (Delivered<T>, DeliveryInfo) = match &t.de {
-            DeKind::SimMap { keys, error_at } => deliver_events(&events, keys, *error_at, stats),
+            DeKind::SimMap { keys, error_at, hint } => deliver_events(&events, keys, *error_at, *hint, stats),
             DeKind::FromValue => match &wire {
                 Wire::Tree(tv) => {
                     let tv = tv.clone();
@@ -969,7 +1276,7 @@ fn finish_delivery<T: CellTy>(t: &SerdeTrace, prop: &str, wire: Wire, expected: 
         }
         let text = format!("[{}]", vals.join(","));
         let de = match &t.de {
-            DeKind::SimMap { .. } => DeKind::FromStr,
+            DeKind::SimMap { .. } | DeKind::Positional { .. } => DeKind::FromStr,
             other => other.clone(),
         };
         let (d, _): (Delivered<T>, DeliveryInfo) = deliver_text(text.as_bytes(), &de, stats);
@@ -990,16 +1297,37 @@ fn finish_delivery<T: CellTy>(t: &SerdeTrace, prop: &str, wire: Wire, expected: 
     }
     if t.byte_muts.is_empty() {
         let (d, info, label): (Delivered<T>, DeliveryInfo, String) = match &t.de {
-            DeKind::SimMap { keys, error_at } => {
+            DeKind::SimMap { keys, error_at, hint } => {
                 if nest {
                     // nesting only exists in rendered documents
                     let text = render(&events, true);
                     let (d, i) = deliver_text(text.as_bytes(), &DeKind::FromStr, stats);
                     (d, i, "from_str".into())
                 } else {
-                    let (d, i) = deliver_events(&events, keys, *error_at, stats);
+                    let (d, i) = deliver_events(&events, keys, *error_at, *hint, stats);
                     (d, i, "sim_map".into())
                 }
+            }
+            DeKind::Positional { human } => {
+                // damaged document delivered positionally (in the order the events now have)
+                let vals: Vec<Value> = events.iter().map(|e| e.val.value()).collect();
+                let human = *human;
+                stats.tf("positional_delivery");
+                let r = guard(|| TooDee::<T>::deserialize(SimSeqDe { vals, human }).map_err(|e| e.to_string()));
+                return match r {
+                    Err(p) => Err(v("panic", format!("positional deserialisation panicked: {}", p))),
+                    Ok(Err(_)) => {
+                        stats.oc("positional_rejected");
+                        Ok(true)
+                    }
+                    Ok(Ok(a)) => match shape_ok(&a) {
+                        Err(m) => Err(v("accepted_invalid", m)),
+                        Ok(()) => {
+                            stats.oc("positional_accepted_valid");
+                            Ok(true)
+                        }
+                    },
+                };
             }
             other => {
                 let text = render(&events, nest);
@@ -1056,7 +1384,7 @@ fn finish_delivery<T: CellTy>(t: &SerdeTrace, prop: &str, wire: Wire, expected: 
         }
     }
     let de = match &t.de {
-        DeKind::SimMap { .. } => DeKind::FromSlice,
+        DeKind::SimMap { .. } | DeKind::Positional { .. } => DeKind::FromSlice,
         other => other.clone(),
     };
     let (d, _info): (Delivered<T>, DeliveryInfo) = deliver_text(&bytes, &de, stats);
@@ -1086,6 +1414,7 @@ fn ser_name(s: &SerKind) -> &'static str {
         SerKind::ToVec => "to_vec",
         SerKind::ToWriter { .. } => "to_writer",
         SerKind::ToValue => "to_value",
+        SerKind::LenChecked => "length_prefixed",
     }
 }
 
@@ -1096,6 +1425,7 @@ fn de_name(d: &DeKind) -> &'static str {
         DeKind::FromReader { .. } => "from_reader",
         DeKind::FromValue => "from_value",
         DeKind::SimMap { .. } => "sim_map",
+        DeKind::Positional { .. } => "positional",
     }
 }
 
@@ -1224,7 +1554,8 @@ pub fn gen_trace(rng: &mut Rng, prop: &str, thorough: bool) -> SerdeTrace {
         source = if rng.chance(1, 2) { Source::View(w) } else { Source::ViewMut(w) };
     }
     let hard = prop == "C18" && rng.chance(1, 5);
-    let ser = match rng.below(4) {
+    let ser = match rng.below(5) {
+        4 => SerKind::LenChecked,
         0 => SerKind::ToString,
         1 => SerKind::ToVec,
         2 => SerKind::ToValue,
@@ -1236,7 +1567,22 @@ pub fn gen_trace(rng: &mut Rng, prop: &str, thorough: bool) -> SerdeTrace {
         1 => DeKind::FromSlice,
         2 => DeKind::FromValue,
         3 => DeKind::FromReader { max_chunk: *[1usize, 2, 3, 7, 64, 4096].get(rng.below(6)).unwrap(), eintr_every: *[0usize, 0, 2, 3, 5].get(rng.below(5)).unwrap(), fault: if hard { Some((if rng.chance(1, 2) { ReadFault::Error } else { ReadFault::Eof }, rng.below(40))) } else { None } },
-        _ => DeKind::SimMap { keys: (0..n_keys).map(|_| *[KeyRepr::Borrowed, KeyRepr::Transient, KeyRepr::Owned, KeyRepr::Bytes].get(rng.below(4)).unwrap()).collect(), error_at: if (hard || prop == "C19") && rng.chance(1, 4) { Some(rng.below(7)) } else { None } },
+        4 if prop == "C19" && elem == ElemTy::U32 && rng.chance(1, 3) => DeKind::Positional { human: rng.chance(1, 2) },
+        _ => {
+            // integer keys and lying size hints only where rejection is a legal outcome (C19)
+            let n_reprs = if prop == "C19" { 5 } else { 4 };
+            let keys = (0..n_keys)
+                .map(|_| match rng.below(n_reprs) {
+                    0 => KeyRepr::Borrowed,
+                    1 => KeyRepr::Transient,
+                    2 => KeyRepr::Owned,
+                    3 => KeyRepr::Bytes,
+                    _ => KeyRepr::Index { off: *[0u8, 0, 1, 3, 200].get(rng.below(5)).unwrap() },
+                })
+                .collect();
+            let hint = if rng.chance(1, 5) { rng.range(1, 3) as u8 } else { 0 };
+            DeKind::SimMap { keys, error_at: if (hard || prop == "C19") && rng.chance(1, 4) { Some(rng.below(7)) } else { None }, hint }
+        }
     };
     let mut muts = Vec::new();
     let mut byte_muts = Vec::new();
@@ -1281,6 +1627,11 @@ pub fn gen_trace(rng: &mut Rng, prop: &str, thorough: bool) -> SerdeTrace {
                 _ => DocMut::SplitData { at: rng.below(64) },
             });
         }
+    }
+    if matches!(de, DeKind::Positional { .. }) && rng.chance(1, 2) {
+        // an undamaged document delivered positionally: must come back equal, or be rejected
+        muts.clear();
+        byte_muts.clear();
     }
     SerdeTrace { elem, cols, rows, build, salt, source, ser, de, muts, byte_muts }
 }
